@@ -258,3 +258,162 @@ def walk(n):
     elif isinstance(n, list):
         for v in n:
             yield from walk(v)
+
+
+# ---------------------------------------------------------------- token-level printer (mirrors Grammar.tla PrintTree)
+
+def _tk(k, v, lit=0):
+    return {"k": k, "v": v, "lit": lit}
+
+
+def _op(x):
+    return _tk("NS", x) if x == ":" else _tk("Sticky", x)
+
+
+def _paren(ts):
+    return [_tk("NS", "(")] + ts + [_tk("NS", ")")]
+
+
+def _prlist(es, lay, in_array):
+    out = []
+    for i, e in enumerate(es):
+        out += pr_e(e, -1, lay)
+        if i < len(es) - 1:
+            out.append(_tk("NS", ","))
+            if in_array and lay == "eols":
+                out.append(_tk("EOL", "#eol"))
+    return out
+
+
+def _raw(n, lay):
+    t = n["t"]
+    if t == "bin":
+        L = PREC[n["op"]]
+        return L, pr_e(n["l"], L, lay) + [_op(n["op"])] + pr_e(n["r"], L + 1, lay)
+    if t == "un":
+        return 5, [_tk("Sticky", n["op"])] + pr_e(n["x"], 6, lay)
+    if t == "ix1":
+        return 7, pr_e(n["a"], 7, lay) + [_tk("NS", "[")] + pr_e(n["i"], -1, lay) + [_tk("NS", "]")]
+    if t == "ix2":
+        return 7, pr_e(n["a"], 7, lay) + [_tk("NS", "[")] + pr_e(n["i"], -1, lay) + [_tk("NS", ":")] + pr_e(n["j"], -1, lay) + [_tk("NS", "]")]
+    if t == "int":
+        return 8, [_tk("Int", "#int", n["v"])]
+    if t == "float":
+        return 8, [_tk("Float", "#float", n["v"])]
+    if t == "str":
+        return 8, [_tk("Str", "#str", n["v"])]
+    if t == "bool":
+        return 8, [_tk("Name", "true" if n["v"] else "false")]
+    if t == "name":
+        return 8, [_tk("Name", n["n"])]
+    if t == "list":
+        return 8, [_tk("NS", "[")] + ([_tk("EOL", "#eol")] * 2 if lay == "eols" else []) + _prlist(n["e"], lay, True) + [_tk("NS", "]")]
+    if t == "call":
+        return 8, [_tk("Name", n["name"]["n"]), _tk("NS", "(")] + _prlist(n["args"], lay, False) + [_tk("NS", ")")]
+    if t == "fn":
+        ps_ = []
+        for i, p in enumerate(n["params"]):
+            if i:
+                ps_.append(_tk("NS", ","))
+            ps_.append(_tk("Name", p))
+        return -1, [_tk("NS", "(")] + ps_ + [_tk("NS", ")"), _tk("Sticky", "->")] + pr_b(n["body"], False, False, lay)
+    raise ValueError("not an expression: " + t)
+
+
+def pr_e(n, minp, lay):
+    lv, ts = _raw(n, lay)
+    if lay == "parens" and n["t"] != "fn":
+        lv, ts = 8, _paren(ts)
+    return _paren(ts) if lv < minp else ts
+
+
+def pr_b(n, after_expr, before_else, lay):
+    if n["t"] == "block":
+        out = [_tk("NS", "{"), _tk("EOL", "#eol")] + ([_tk("EOL", "#eol")] if lay == "eols" else [])
+        for s in n["ss"]:
+            out += pr_s(s, lay) + [_tk("EOL", "#eol")] + ([_tk("EOL", "#eol")] if lay == "eols" else [])
+        return out + [_tk("NS", "}")]
+    ts = pr_s(n, lay)
+    if (after_expr and ts[0]["v"] in ("[", "(", "-")) or (before_else and open_if(n)):
+        return [_tk("NS", "{"), _tk("EOL", "#eol")] + ts + [_tk("EOL", "#eol"), _tk("NS", "}")]
+    return ts
+
+
+def pr_s(n, lay):
+    t = n["t"]
+    kw = lambda x: _tk("Name", x)
+    if t == "assign":
+        return [_tk("Name", n["tgt"]["n"]), _tk("Sticky", "=")] + pr_e(n["e"], -1, lay)
+    if t == "if":
+        return [kw("if")] + pr_e(n["c"], -1, lay) + pr_b(n["th"], True, False, lay)
+    if t == "ifelse":
+        return [kw("if")] + pr_e(n["c"], -1, lay) + pr_b(n["th"], True, True, lay) + [kw("else")] + pr_b(n["el"], False, False, lay)
+    if t == "while":
+        return [kw("while")] + pr_e(n["c"], -1, lay) + pr_b(n["body"], True, False, lay)
+    if t == "for":
+        vs = []
+        for i, v in enumerate(n["vars"]):
+            if i:
+                vs.append(_tk("NS", ","))
+            vs.append(_tk("Name", v["n"]))
+        return [kw("for")] + vs + [_tk("Sticky", "<-")] + _prlist(n["iters"], lay, False) + pr_b(n["body"], True, False, lay)
+    if t == "ret":
+        return [kw("return")] + pr_e(n["e"], -1, lay)
+    if t == "yield":
+        return [kw("yield")] + pr_e(n["e"], -1, lay)
+    if t == "block":
+        return pr_b(n, False, False, lay)
+    return pr_e(n, -1, lay)
+
+
+def ptoks(n, lay="plain"):
+    return pr_s(n, lay) + [_tk("EOL", "#eol"), _tk("EOF", "#eof")]
+
+
+def tok_text(t):
+    if t["k"] == "Int":
+        return str(t["lit"])
+    if t["k"] == "Float":
+        return fstr(t["lit"])
+    if t["k"] == "Str":
+        return strlit(t["lit"])
+    return t["v"]
+
+
+STICKY = set("+*/=<>!-&|#%~")
+
+
+def render(toks, style="plain", rnd=None):
+    """token list (without the final EOL, EOF) -> text.  styles: plain (one blank between tokens), compact (blanks only
+    where two tokens would otherwise merge), blanks (random runs of blanks and tabs), comments (a comment before every line
+    break and at the end, comment lines where a blank line is allowed)"""
+    out = ""
+    prev = None
+    body = toks[:-2] if len(toks) >= 2 and toks[-1]["k"] == "EOF" else toks
+    for i, t in enumerate(body):
+        if t["k"] == "EOL":
+            if style == "comments":
+                out += " ; note \"{[ ]}" if rnd is None or rnd.random() < 0.7 else ""
+            if style == "blanks" and rnd is not None:
+                out += " " * rnd.randint(0, 2)
+            out += "\n"
+            prev = None
+            continue
+        x = tok_text(t)
+        if prev is not None:
+            if style == "compact":
+                need = (prev[-1] in STICKY and x[0] in STICKY) or ((prev[-1].isalnum() or prev[-1] == ".") and (x[0].isalnum()))
+                out += " " if need else ""
+            elif style == "blanks" and rnd is not None:
+                out += rnd.choice([" ", "  ", "\t", " \t ", "   "])
+            else:
+                out += " "
+        elif style == "blanks" and rnd is not None:
+            out += " " * rnd.randint(0, 3)
+        out += x
+        prev = x
+    if style == "comments":
+        out += " ; trailing comment"
+    if style == "blanks" and rnd is not None:
+        out += " " * rnd.randint(0, 2)
+    return out
